@@ -35,10 +35,100 @@ func mixByte(seed uint64, i int) byte {
 	return byte(z)
 }
 
-// expand parses `-` | hex | rep:<hexpattern>:<n> | mix:<seed>:<n>
+var vocab = [][]byte{[]byte("SELECT "), []byte("FROM "), []byte("system.local "), []byte("WHERE "),
+	[]byte("key=? "), []byte("AND "), {0, 0, 0, 4}}
+
+// segExpand appends one segment of a body SHAPE to out (see lean/Driver/C18.lean for the grammar):
+// h<hex> | z<n> | r<seed>.<n> | p<hex>.<n> | c<dist>.<n> | t<seed>.<n>
+func segExpand(out []byte, seg string) []byte {
+	if seg == "" {
+		panic("bad segment")
+	}
+	f := strings.Split(seg[1:], ".")
+	num := func(x string) int {
+		n, err := strconv.ParseUint(x, 10, 63)
+		if err != nil {
+			panic("bad segment " + seg)
+		}
+		return int(n)
+	}
+	switch {
+	case seg[0] == 'h' && len(f) == 1:
+		b, err := vh.UnHex(f[0])
+		if err != nil {
+			panic("bad segment " + seg)
+		}
+		return append(out, b...)
+	case seg[0] == 'z' && len(f) == 1:
+		return append(out, make([]byte, num(f[0]))...)
+	case seg[0] == 'r' && len(f) == 2:
+		sd, n := uint64(num(f[0])), num(f[1])
+		for i := 0; i < n; i++ {
+			out = append(out, mixByte(sd, i))
+		}
+		return out
+	case seg[0] == 'p' && len(f) == 2:
+		pat, err := vh.UnHex(f[0])
+		if err != nil || len(pat) == 0 {
+			panic("bad segment " + seg)
+		}
+		n := num(f[1])
+		for i := 0; i < n; i++ {
+			out = append(out, pat[i%len(pat)])
+		}
+		return out
+	case seg[0] == 'c' && len(f) == 2:
+		d, n := num(f[0]), num(f[1])
+		for i := 0; i < n; i++ {
+			var x byte
+			if d >= 1 && d <= len(out) {
+				x = out[len(out)-d]
+			}
+			out = append(out, x)
+		}
+		return out
+	case seg[0] == 't' && len(f) == 2:
+		sd, n := uint64(num(f[0])), num(f[1])
+		stop := len(out) + n
+		for k := 0; len(out) < stop; k++ {
+			out = append(out, vocab[int(mixByte(sd, k))%7]...)
+		}
+		return out[:stop]
+	}
+	panic("bad segment " + seg)
+}
+
+func catExpand(segs string) []byte {
+	out := []byte{}
+	if segs == "-" {
+		return out
+	}
+	for _, seg := range strings.Split(segs, ",") {
+		out = segExpand(out, seg)
+	}
+	return out
+}
+
+// expand parses `-` | hex | rep:<hexpattern>:<n> | mix:<seed>:<n> | cat:<segs> | emb:<segs>:<hex0>:…:<hexk>
 func expand(s string) []byte {
 	p := strings.Split(s, ":")
 	switch {
+	case len(p) == 2 && p[0] == "cat":
+		return catExpand(p[1])
+	case len(p) >= 3 && p[0] == "emb":
+		blob := catExpand(p[1])
+		out := []byte{}
+		for i, h := range p[2:] {
+			b, err := vh.UnHex(h)
+			if err != nil {
+				panic("bad bytes arg")
+			}
+			if i > 0 {
+				out = append(out, blob...)
+			}
+			out = append(out, b...)
+		}
+		return out
 	case len(p) == 3 && p[0] == "rep":
 		pat, err := vh.UnHex(p[1])
 		n, err2 := strconv.Atoi(p[2])
@@ -123,6 +213,17 @@ func compressor(name string) gocql.Compressor {
 		return guardLZ4{}
 	}
 	return named{gocql.SnappyCompressor{}, name}
+}
+
+// safeEncode: Encode called by a GENERATOR (to learn the codec's answer for the model): a panic inside
+// the codec becomes an error here; the ops themselves report it (crash:...)
+func safeEncode(c gocql.Compressor, b []byte) (z []byte, err error) {
+	defer func() {
+		if r := recover(); r != nil {
+			z, err = nil, fmt.Errorf("panic: %v", r)
+		}
+	}()
+	return c.Encode(b)
 }
 
 func classify(err error) string {
@@ -402,6 +503,32 @@ func exec(op string) (res string) {
 			return "err"
 		}
 		return "ok:" + canon(out)
+	case "lz4rt":
+		// what an independent reader of Cassandra's lz4 framing sees: prefix + raw block, decoded with
+		// pierrec/lz4 called directly; then the wrapper's own Decode
+		body := expand(w[1])
+		enc, err := lz4.LZ4Compressor{}.Encode(body)
+		if err != nil {
+			return "encode-error"
+		}
+		if len(enc) < 4 {
+			return "short-output"
+		}
+		blockOK := true // a reader does not call the block decoder for a zero prefix
+		if len(body) > 0 {
+			dst := make([]byte, len(body))
+			n, err := plz4.UncompressBlock(enc[4:], dst)
+			blockOK = err == nil && bytes.Equal(dst[:n], body)
+		}
+		dec, err := guardLZ4{}.Decode(enc)
+		return fmt.Sprintf("ok prefix=%d block=%v dec=%v", binary.BigEndian.Uint32(enc), blockOK, err == nil && bytes.Equal(dec, body))
+	case "lz4dst":
+		// the destination Encode hands to CompressBlock: capacity of the result minus the 4 prefix bytes
+		out, err := lz4.LZ4Compressor{}.Encode(make([]byte, atoi(w[1])))
+		if err != nil {
+			return "err"
+		}
+		return fmt.Sprintf("dst=%d", cap(out)-4)
 	case "lz4dec":
 		out, err := guardLZ4{}.Decode(expand(w[1]))
 		if err != nil {
@@ -483,6 +610,17 @@ func lz4Complete(src []byte) bool {
 	}
 }
 
+// genBodyS: a shape (see genShape) one time in four, else genBody
+func genBodyS(r *vh.Rng, maxN, shapeMax int) (string, string) {
+	if r.Intn(4) == 0 {
+		if shapeMax > maxN {
+			shapeMax = maxN
+		}
+		return genShape(r, shapeMax, threshLens(17), lateLs)
+	}
+	return genBody(r, maxN)
+}
+
 // genBody returns a byte-string ARGUMENT (hex or descriptor) and a content class
 func genBody(r *vh.Rng, maxN int) (string, string) {
 	n := sizes[r.Intn(len(sizes))]
@@ -519,6 +657,194 @@ func genBody(r *vh.Rng, maxN int) (string, string) {
 		}
 		return fmt.Sprintf("mix:%d:%d", r.Intn(1000000), n), "mix"
 	}
+}
+
+
+// ---------- body SHAPES (the dimension the codecs' internals are sensitive to) ----------
+
+// lengths on both sides of the codecs' internal thresholds: lz4 minMatch 4, the 5/12/13/14-byte end
+// rules (mfLimit), the token nibble 15 and the 0xFF length-run boundaries 15+255k, the 64 KiB offset
+// limit; snappy literal tags 60/61, 256/257, copy lengths 4..11 / 64, offsets 2048 / 65536, block size
+// 64 KiB; every power of two +-1 up to maxPow
+func threshLens(maxPow uint) []int {
+	l := []int{0, 3, 4, 5, 6, 11, 12, 13, 14, 15, 16, 18, 19, 20, 59, 60, 61, 62, 64, 65, 67, 68, 269, 270, 271, 524, 525, 526, 779, 780, 781}
+	for k := uint(0); k <= maxPow; k++ {
+		l = append(l, 1<<k-1, 1<<k, 1<<k+1)
+	}
+	return l
+}
+
+var distances = []int{1, 2, 3, 4, 8, 255, 256, 2047, 2048, 4095, 4096, 4097, 65534, 65535, 65536, 65537, 70000}
+
+func segRandom(r *vh.Rng, n int) string { return fmt.Sprintf("r%d.%d", r.Intn(1<<30), n) }
+
+// genSeg draws one segment of length n; kind: 0 random run, 1 zero run, 2 short-period repetition,
+// 3 copy of an earlier window at one of the distances, 4 text-like
+func genSeg(r *vh.Rng, kind, n int) (string, string) {
+	switch kind {
+	case 0:
+		return segRandom(r, n), "R"
+	case 1:
+		return fmt.Sprintf("z%d", n), "Z"
+	case 2:
+		return fmt.Sprintf("p%s.%d", vh.Hex(r.Bytes(1+r.Intn(7))), n), "P"
+	case 3:
+		return fmt.Sprintf("c%d.%d", distances[r.Intn(len(distances))], n), "C"
+	}
+	return fmt.Sprintf("t%d.%d", r.Intn(1<<30), n), "T"
+}
+
+// lateMatch: incompressible run of L bytes, then a short match of m bytes (kind k), then a random tail.
+// Both codecs emit the run as ONE literal whose length field costs ~L/255 (lz4) bytes: the shapes sit
+// on both sides of "what the late match saves vs what the literal run costs".
+var lateKinds = []string{"z", "c1", "c4", "c255", "c4096", "c65535", "c65536", "c65537", "start", "start+64"}
+
+func lateMatch(r *vh.Rng, L int, kind string, m, tail int) string {
+	var match string
+	switch kind {
+	case "z":
+		match = fmt.Sprintf("z%d", m)
+	case "start":
+		match = fmt.Sprintf("c%d.%d", L, m)
+	case "start+64":
+		d := L - 64
+		if d < 1 {
+			d = 1
+		}
+		match = fmt.Sprintf("c%d.%d", d, m)
+	default:
+		match = fmt.Sprintf("%s.%d", kind, m)
+	}
+	return fmt.Sprintf("cat:%s,%s,%s", segRandom(r, L), match, segRandom(r, tail))
+}
+
+// lz4's cost of a literal run of L bytes beyond the bytes themselves (token + length bytes)
+func litOverhead(L int) int {
+	if L < 15 {
+		return 1
+	}
+	return 2 + (L-15)/255
+}
+
+var lateLs = []int{1024, 2048, 4096, 4400, 5000, 8192, 12000, 16384, 32768, 50000, 65535, 65536, 65537, 70000, 120000}
+
+// lateRest: candidate values of m+tail around the literal-run overhead of L, fractions of it (other buffer
+// strategies have other break-even points), and a few absolute ones
+func lateRest(L int) []int {
+	o := litOverhead(L)
+	return []int{8, 14, 20, o / 4, o / 2, 3 * o / 4, o - 8, o - 2, o - 1, o, o + 1, o + 2, o + 8, 2*o + 5, L/128 + 16}
+}
+
+func genLate(r *vh.Rng, Ls []int) (string, string) {
+	L := Ls[r.Intn(len(Ls))]
+	if r.Intn(3) == 0 {
+		L += r.Intn(257) - 128
+	}
+	rest := lateRest(L)
+	mt := rest[r.Intn(len(rest))]
+	tail := []int{0, 0, 1, 2, 3, 5, 12, 13, 14}[r.Intn(9)]
+	m := mt - tail
+	if m < 4 {
+		m, tail = 4+r.Intn(8), r.Intn(4)
+	}
+	return lateMatch(r, L, lateKinds[r.Intn(len(lateKinds))], m, tail), "late-match"
+}
+
+// genShape returns a `cat:` descriptor of at most maxN bytes and its shape class
+func genShape(r *vh.Rng, maxN int, lens []int, Ls []int) (string, string) {
+	pick := func() int {
+		for i := 0; i < 8; i++ {
+			n := lens[r.Intn(len(lens))]
+			if r.Intn(4) == 0 {
+				n += r.Intn(9) - 4
+			}
+			if n >= 0 && n <= maxN {
+				return n
+			}
+		}
+		return r.Intn(maxN + 1)
+	}
+	switch r.Intn(10) {
+	case 0, 1, 2:
+		if maxN >= 1400 {
+			var ok []int
+			for _, L := range Ls {
+				if L+L/100+300 <= maxN {
+					ok = append(ok, L)
+				}
+			}
+			return genLate(r, ok)
+		}
+		fallthrough
+	case 3: // expansion: incompressible, every threshold length (compressed larger than plain)
+		return "cat:" + segRandom(r, pick()), "expansion"
+	case 4: // one class alone at a threshold length
+		k := r.Intn(5)
+		sg, c := genSeg(r, k, pick())
+		if k == 3 {
+			sg, c = segRandom(r, 1+r.Intn(300))+","+sg, "RC"
+		}
+		return "cat:" + sg, "single-" + c
+	case 5: // exact period p: p random bytes, then a copy at distance p
+		p := distances[r.Intn(len(distances))]
+		n := pick()
+		if p > maxN {
+			p = 1 + r.Intn(maxN+1)
+		}
+		if p+n > maxN {
+			n = maxN - p
+		}
+		return fmt.Sprintf("cat:%s,c%d.%d", segRandom(r, p), p, n), "period"
+	}
+	// concatenation of 2..6 segments of all classes
+	k := 2 + r.Intn(5)
+	var segs []string
+	cls := ""
+	total := 0
+	for i := 0; i < k; i++ {
+		n := pick()
+		if i > 0 && r.Intn(2) == 0 {
+			n = []int{0, 1, 3, 4, 5, 8, 12, 13, 14, 15, 16, 20, 60, 61, 64, 65}[r.Intn(16)]
+		}
+		if total+n > maxN {
+			n = maxN - total
+		}
+		total += n
+		sg, c := genSeg(r, r.Intn(5), n)
+		segs = append(segs, sg)
+		cls += c
+	}
+	_ = cls
+	return "cat:" + strings.Join(segs, ","), fmt.Sprintf("concat%d", k)
+}
+
+// embed writes `plain` (a request body made by a real builder around the value `blob` = expand(blobArg))
+// as an emb: descriptor; plain hex when the value is short or not found
+func embed(plain, blob []byte, blobArg string) string {
+	if len(blob) < 64 || !strings.HasPrefix(blobArg, "cat:") {
+		return vh.Hex(plain)
+	}
+	parts := bytes.Split(plain, blob)
+	if len(parts) < 2 {
+		return vh.Hex(plain)
+	}
+	d := "emb:" + strings.TrimPrefix(blobArg, "cat:")
+	for _, p := range parts {
+		d += ":" + vh.Hex(p)
+	}
+	if !bytes.Equal(expand(d), plain) {
+		return vh.Hex(plain)
+	}
+	return d
+}
+
+// encArg renders the result of the one Encode call for the model: the bytes, or only their number when
+// the answer depends on nothing else (op rt) and the bytes are many
+func encArg(b []byte, err error, lenOnly bool) string {
+	if err == nil && lenOnly && len(b) > 1024 {
+		return fmt.Sprintf("oklen:%d", len(b))
+	}
+	return resStr(b, err)
 }
 
 func sizeClass(n int) string {
@@ -559,9 +885,10 @@ func reqOp(word, kind, comp string, ver byte, extra, stream int, stmt []byte, bl
 	body := plain[headSize(ver):]
 	encres := "none"
 	if c := compressor(comp); c != nil && kind != "startup" && kind != "options" {
-		encres = resStr(c.Encode(body))
+		z, err := safeEncode(c, body)
+		encres = encArg(z, err, word == "rt")
 	}
-	return fmt.Sprintf("%s %s %s %d %d %d %s %s %s %s", word, kind, comp, ver, extra, stream, vh.Hex(body), encres, vh.Hex(stmt), blobArg), true
+	return fmt.Sprintf("%s %s %s %d %d %d %s %s %s %s", word, kind, comp, ver, extra, stream, embed(body, expand(blobArg), blobArg), encres, vh.Hex(stmt), blobArg), true
 }
 
 func main() {
@@ -579,6 +906,68 @@ func main() {
 		mult = 12
 	}
 	streams := []int{0, 1, 2, 127, 128, 255, 256, 32767, -1}
+
+	// 0. body SHAPES, spec-backed ops first (the check keeps the first 50 disagreements only)
+	maxPow, shapeMax := uint(17), 1<<17+1
+	Ls := lateLs
+	if tier == "thorough" {
+		maxPow, shapeMax = 20, 1<<20+1
+		Ls = append(append([]int{}, lateLs...), 131072, 200000, 262144, 1<<20-600)
+	}
+	lens := threshLens(maxPow)
+	// 0a. the trusted-base hypothesis on shapes: Encode succeeds and Decode(Encode x) = x, both codecs.
+	//     A fixed grid of the late-match family (no dependence on the seed except the random bytes) ...
+	for _, L := range Ls {
+		for _, kind := range lateKinds {
+			for _, mt := range lateRest(L) {
+				for _, tail := range []int{0, 3, 13} {
+					m := mt - tail
+					if m < 4 {
+						continue
+					}
+					bodyArg := lateMatch(r, L, kind, m, tail)
+					for _, comp := range compNames[1:] {
+						op := fmt.Sprintf("hyp %s %s", comp, bodyArg)
+						out.Case(op, exec(op), "hyp/"+comp+"/late-match-grid", true)
+					}
+				}
+			}
+		}
+	}
+	//     ... and drawn shapes
+	for i := 0; i < 1500*mult; i++ {
+		bodyArg, cls := genShape(r, shapeMax, lens, Ls)
+		comp := compNames[1+r.Intn(2)]
+		op := fmt.Sprintf("hyp %s %s", comp, bodyArg)
+		out.Case(op, exec(op), "hyp/"+comp+"/"+cls, true)
+	}
+	// 0b. the lz4 wrapper seen by an independent reader (prefix + raw block), on shapes
+	for i := 0; i < 1500*mult; i++ {
+		bodyArg, cls := genShape(r, shapeMax, lens, Ls)
+		op := "lz4rt " + bodyArg
+		out.Case(op, exec(op), "lz4rt/"+cls, true)
+	}
+	// 0c. shaped values through the real builders and the real reader
+	for i := 0; i < 1200*mult; i++ {
+		blobArg, cls := genShape(r, shapeMax, lens, Ls)
+		if i%2 == 1 {
+			blobArg, cls = genLate(r, Ls)
+		}
+		kind := []string{"query", "execute", "batch", "auth"}[r.Intn(4)]
+		comp := compNames[1+r.Intn(2)]
+		if r.Intn(12) == 0 {
+			comp = "none"
+		}
+		ver := byte(1 + r.Intn(5))
+		extra := []int{0, 0, 2, 4, 6}[r.Intn(5)]
+		stmt := []byte("SELECT * FROM t WHERE k = ?")[:r.Intn(28)]
+		op, ok := reqOp("rt", kind, comp, ver, extra, streams[r.Intn(len(streams))], stmt, blobArg)
+		if !ok {
+			out.Dist["skipped-build"]++
+			continue
+		}
+		out.Case(op, exec(op), fmt.Sprintf("rt-shape/%s/%s", comp, cls), true)
+	}
 
 	// 1. every request kind x version x compressor x tracing/payload: real builders
 	for rep := 0; rep < 2*mult; rep++ {
@@ -628,7 +1017,7 @@ func main() {
 		if i%200 == 0 {
 			maxN = 1 << 20
 		}
-		bodyArg, cls := genBody(r, maxN)
+		bodyArg, cls := genBodyS(r, maxN, 1<<15+1)
 		if i%200 == 0 {
 			bodyArg, cls = fmt.Sprintf("rep:%s:%d", vh.Hex(r.Bytes(1+r.Intn(40))), 1<<20-r.Intn(3)), "repetitive"
 			if i%400 == 0 {
@@ -638,7 +1027,7 @@ func main() {
 		body := expand(bodyArg)
 		encres := "none"
 		if c := compressor(comp); c != nil && hf&1 == 1 {
-			encres = resStr(c.Encode(body))
+			encres = resStr(safeEncode(c, body))
 		}
 		op := fmt.Sprintf("raw %s %d %d %d %d %d %s %s", comp, ver, extra, hf, r.Intn(256), streams[r.Intn(len(streams))], bodyArg, encres)
 		out.Case(op, exec(op), fmt.Sprintf("raw/%s/flag%d/%s/%s", comp, hf&1, cls, sizeClass(len(body))), true)
@@ -648,7 +1037,7 @@ func main() {
 	for i := 0; i < 3000*mult; i++ {
 		comp := compNames[r.Intn(3)]
 		ver := byte(1 + r.Intn(5))
-		bodyArg, _ := genBody(r, 70000)
+		bodyArg, _ := genBodyS(r, 70000, 1<<13+1)
 		body := expand(bodyArg)
 		sender := compNames[1+r.Intn(2)]
 		if comp != "none" {
@@ -661,7 +1050,11 @@ func main() {
 			flags = 0
 		}
 		if compressed {
-			payload, _ = compressor(sender).Encode(body)
+			var err error
+			if payload, err = safeEncode(compressor(sender), body); err != nil {
+				out.Dist["read/sender-encode-error-skipped"]++ // reported by the spec-backed ops (hyp, rt, lz4rt)
+				continue
+			}
 			flags |= 1
 		}
 		mut := "valid"
@@ -757,7 +1150,7 @@ func main() {
 		if i%300 == 0 {
 			maxN = 1 << 20
 		}
-		bodyArg, cls := genBody(r, maxN)
+		bodyArg, cls := genBodyS(r, maxN, 1<<16+1)
 		body := expand(bodyArg)
 		var cc plz4.Compressor
 		buf := make([]byte, plz4.CompressBlockBound(len(body)))
@@ -766,9 +1159,13 @@ func main() {
 		out.Case(op, exec(op), "lz4enc/"+cls+"/"+sizeClass(len(body)), true)
 	}
 	for i := 0; i < 2500*mult; i++ {
-		bodyArg, _ := genBody(r, 70000)
+		bodyArg, _ := genBodyS(r, 70000, 1<<13+1)
 		body := expand(bodyArg)
-		data, _ := lz4.LZ4Compressor{}.Encode(body)
+		data, err := safeEncode(lz4.LZ4Compressor{}, body)
+		if err != nil || len(data) < 4 {
+			out.Dist["lz4dec/encode-error-skipped"]++ // reported by the spec-backed ops (hyp, rt, lz4rt)
+			continue
+		}
 		if len(data) >= 4 && binary.BigEndian.Uint32(data) > 1<<27 {
 			data[0], data[1] = 0, 0
 		}
@@ -843,7 +1240,7 @@ func main() {
 			out.Case(op, exec(op), "hyp/"+comp+"/32MiB", true)
 		}
 		bodyArg := fmt.Sprintf("rep:%s:%d", vh.Hex(r.Bytes(23)), 32<<20)
-		z, err := gocql.SnappyCompressor{}.Encode(expand(bodyArg))
+		z, err := safeEncode(gocql.SnappyCompressor{}, expand(bodyArg))
 		op := fmt.Sprintf("raw snappy 4 0 1 7 5 %s %s", bodyArg, resStr(z, err))
 		out.Case(op, exec(op), "raw/snappy/32MiB", true)
 	}
@@ -878,6 +1275,11 @@ func main() {
 		op := fmt.Sprintf("nego %s %s", name, sup)
 		a := exec(op)
 		out.Case(op, a, "nego/"+strings.Fields(a)[0], true)
+	}
+	// 7. the destination lz4 Encode hands to the block encoder (model vs code; last: a tie, not an input)
+	for _, n := range threshLens(maxPow) {
+		op := fmt.Sprintf("lz4dst %d", n)
+		out.Case(op, exec(op), "lz4dst", true)
 	}
 	out.Close(nil)
 }
